@@ -5,7 +5,8 @@
    outcome (accept / reject / pause / error), requestor cancel and update (any update-hook outcome), API
    pause / unpause / cancel / update, block-hook outcome at every block (continue / pause / error), send
    outcome of every message (ok / failed = peer gone), the worker being occupied or freed, the executor's
-   FinishTask round trip being overtaken by the message queue's notifications (LGateHold / LFinish), and any
+   FinishTask round trip being overtaken by the message queue's notifications (LGateHold / LFinish), its
+   StartTask round trip being overtaken by anything that reaches the loop first (LArmStart / LStart), and any
    resolution of the executor's select when several signals are pending — for ANY number n of blocks.
 
    Full statement of the property (kept visible): every request reaches exactly one outcome (completed
@@ -24,7 +25,8 @@ Open Scope N_scope.
    (p_once); one network-error notification per failed send of a message of the request (p_neterr); an
    entry is in CompletingSend only while a terminal status of it waits to be sent, and such a status belongs
    to such an entry or to an executor parked before FinishTask (p_completing); once the executor is out of
-   a response that is gone, no task of it is active or pending in the task queue (p_task). *)
+   a response that is gone, no task of it is active or pending in the task queue (p_task); a block hook only
+   ever runs for a response that is Running (p_exec). *)
 Theorem C05_safety : forall n ls, p_safety (fst (run cfg_now n ls)) = true.
 Proof. exact c05_safety. Qed.
 Print Assumptions C05_safety.
@@ -98,6 +100,15 @@ Example C05_finish_overtaken :
   let a := fst (run cfg_now 1 ls) in
   let b := fst (run cfg_now 1 (ls ++ [(LFinish, 0)])) in
   (st_code a = 0 /\ tq a = 2 /\ n_done a = 1 /\ quiescent a = false) /\ (tq b = 0 /\ quiescent b = true /\ unprot b = 1).
+Proof. vm_compute. repeat split. Qed.
+
+(* a responder-side cancel is handled after the worker popped the task but before its StartTask: the
+   delayed StartTask finds CompletingSend, returns the empty task and marks the task done; one outcome *)
+Example C05_start_overtaken :
+  let ls := [(LArmStart, 0); (LNew HAccept, 0); (LApiCancel, 0)] in
+  let a := fst (run cfg_now 2 ls) in
+  let b := fst (run cfg_now 2 (ls ++ [(LStart, 0); (LSend true, 0)])) in
+  (st_code a = 4 /\ tq a = 2 /\ stk a = true) /\ (st_code b = 0 /\ tq b = 0 /\ n_done b = 1 /\ quiescent b = true).
 Proof. vm_compute. repeat split. Qed.
 
 Example C05_monitor_runs :
